@@ -48,6 +48,7 @@ def world():
     w['hdr_is'] = lambda d, key, *parts: fmt_is(d.get(key), *parts) if isinstance(d, dict) else z3.BoolVal(False)
     w['is_empty_dict'] = lambda d: isinstance(d, dict) and not d
     w['keys_are'] = lambda d, *ks: isinstance(d, dict) and sorted(d) == sorted(ks)
+    w['is_slice'] = lambda d, lo, hi: z3.And(zint(d.lo) == zint(lo), zint(d.hi) == zint(hi)) if isinstance(d, Slice) else z3.BoolVal(False)
     w['__bases__'] = {}
     return w
 
@@ -81,6 +82,62 @@ GET_HTTP_RANGE = Contract(
 )
 
 
+MRQ = 'dashlive/server/requesthandler/media_requests.py'
+
+
+class OpenedFile:
+    """current_media_file.open_file(start=s): a context manager whose __enter__ gives a reader over the blob's N bytes,
+    positioned at s (Blob.open_file is not under contract: stated assumption)"""
+
+    def __init__(self, N, start):
+        self.N, self.start = N, start
+
+    def enter(self, eng):
+        from pyvc.models.bufreader import FileModel
+        eng.oblige('safety', 'open_file.start.nonneg', zint(self.start) >= 0)
+        return FileModel(self.N, zint(self.start))
+
+
+def make_response(eng, e, a, kw):
+    v = a[0]
+    if isinstance(v, tuple) and len(v) == 3:
+        return Obj('Response', {'data': v[0], 'status': v[1], 'headers': v[2]})
+    if isinstance(v, tuple) and len(v) == 2 or len(a) == 2:
+        body, status = (v if isinstance(v, tuple) else (a[0], a[1]))
+        return Obj('Response', {'data': body, 'status': status, 'headers': {}})
+    raise Unsupported('flask.make_response shape')
+
+
+def on_demand_contract(ext, mime):
+    return Contract(
+        key=f'{MRQ}:OnDemandMedia.get', variant=ext, props=['C13', 'C06', 'C16'],
+        env=lambda w: {'self': Obj('RequestHandlerBase', {}), 'stream': Opaque('stream'), 'filename': Opaque('filename'),
+                       'ext': ext,
+                       'current_media_file': Obj('MediaFile', {'blob': Obj('Blob', {'size': w['N']})})},
+        requires=[('length', 'N >= 0'), ('str_model', 'str_model')],
+        models={'attr:flask.request.headers': lambda eng: Headers(eng.world),
+                'current_media_file.open_file': lambda eng, e, a, kw: OpenedFile(eng.world['N'], kw['start']),
+                'flask.make_response': make_response},
+        ensures=[
+            ('bad_request', '(result.status == 400) == ((not present) or (not single_range))'),
+            ('partial_content', '(result.status == 206 and is_slice(result.data, first, last + 1) and '
+                                "hdr_is(result.headers, 'Content-Range', 'bytes ', first, '-', last, '/', N) and "
+                                f"result.headers['Content-Type'] == '{mime}') "
+                                'if present and single_range and satisfiable else True'),
+            ('not_satisfiable', "(result.status == 416 and result.data == b'' and "
+                                "hdr_is(result.headers, 'Content-Range', 'bytes */', N)) "
+                                'if present and single_range and not satisfiable else True'),
+        ],
+        canaries=['result.status == 400', 'result.status != 416'],
+        witness_terms=wt,
+    )
+
+
+ON_DEMAND = [on_demand_contract('m4a', 'audio/mp4'), on_demand_contract('m4v', 'video/mp4'), on_demand_contract('mp4', 'application/mp4')]
+GHR_INLINE = Contract(key=f'{BASE}:RequestHandlerBase.get_http_range', variant='inline', props=[], inline=True)
+GET_HTTP_RANGE.applies = lambda frame: False      # at the handler's call site the real body is analysed (inlined)
+
+
 def lemma_consumer_slice(w):
     """media_requests.py:276 `data[start:end + 1]` with len(data) == N, and :82 `reader.read(1 + end - start)`
     from `start`: under get_http_range's postcondition both are exactly bytes start..end of the body."""
@@ -93,16 +150,19 @@ def lemma_consumer_slice(w):
 
 
 GROUP = Group(
-    name='httprange', world=world, contracts=[GET_HTTP_RANGE],
+    name='httprange', world=world, contracts=[GET_HTTP_RANGE] + ON_DEMAND + [GHR_INLINE],
     lemmas=[Lemma('consumer_slice', ['C13'], lemma_consumer_slice)],
     assumptions=[
+        'C13: OnDemandMedia.get is analysed with the real body of get_http_range inlined at its call site; '
+        'current_media_file.open_file(start=s) is assumed to yield a reader over the blob (N = blob.size bytes) positioned at s; '
+        'flask.make_response((body, status, headers)) is assumed to build the response from exactly those three values',
         'C13: the Range header is modelled by the predicates the code observes (pyvc/models/strings.py); '
         'a part of split("-") contains no "-", so int(part, 10) >= 0 when it succeeds; a comma in the header lies in '
         'one of the parts and int() rejects it',
         'C13: str.lower()/strip() only normalise; the spec is stated over the normalised header',
     ],
     trusted=['pyvc/models/strings.py (Headers, HdrStr, SplitParts, PartStr, FString)'],
-    not_covered=['Flask header access and make_response; open_file; the two consumers are covered only by '
-                 'lemma consumer_slice over the contract (their handler bodies are not under contract)',
-                 'media-segment consumer applies data[start:end+1] also on 416 (body of a 416 is unspecified)'],
+    not_covered=['Flask header access and make_response (modelled); Blob.open_file (assumed: a reader over the blob positioned '
+                 'at `start`); the media-segment consumer generate_media_segment (data[start:end+1]) is covered only by lemma '
+                 'consumer_slice over the contract; it applies the slice also on 416 (body of a 416 is unspecified)'],
 )
